@@ -3,5 +3,7 @@
 set -e
 cd "$(dirname "$0")/.."
 python3 bin/vbuild.py
+VERIF_MAKE_FIXTURES=1 ./build/dhsim.test -test.run '^TestFixture$' > /dev/null
+test -s build/fixtures/node_key.pub
 echo '{"id":0,"profile":"C01","seed":1,"tier":"quick"}' > build/smoke.jsonl
 VERIF_JOBS=build/smoke.jsonl ./build/dhsim.test -test.run '^TestWorker$' | grep -q '"verdict":"ok"' && echo "setup ok"
